@@ -268,19 +268,26 @@ def update_oracle(rep, case):
             return a
 
         kw = dict(update_input_file=ipath, update_passthrough_fields=case["passthrough"])
+        # each artefact is scanned as soon as it exists: a later format failing must not hide an earlier leak
         try:
             generate_data(rpath, parent_application=app(), output_format="json", output_files=[js], **kw)
-            generate_data(rpath, parent_application=app(), output_format="csv", output_folder=csvd, **kw)
-            generate_data(rpath, parent_application=app(), dburl=f"sqlite:///{dbp}", **kw)
         except Exception as e:  # noqa
             rep.count("update-run-failed:" + common.outcome_of_exception(e).split(":")[0])
             return
-        rep.count("update-run-ok")
         names = []
         for row in json.loads(js.getvalue() or "[]"):
             names += list(row.keys()) + [row.get("_table")]
         if scan(rep, case, "json", names):
             return
+        try:
+            generate_data(rpath, parent_application=app(), output_format="csv", output_folder=csvd, **kw)
+            generate_data(rpath, parent_application=app(), dburl=f"sqlite:///{dbp}", **kw)
+        except Exception as e:  # noqa
+            # the JSON run of the very same recipe and input completed: a format that cannot take the rows is a
+            # row reaching the stream with a key its schema (rightly) does not have
+            rep.violation("C09:hidden-name-in-rows", f"the JSON run completes but another output format fails on the same rows ({type(e).__name__}: {str(e)[:160]})", case)
+            return
+        rep.count("update-run-ok")
         names = []
         for fn in os.listdir(csvd):
             names.append(os.path.splitext(fn)[0])
